@@ -793,9 +793,18 @@ def unpack(interp, val, n, node):
     return vals
 
 
+def _typhon_dunder(obj, name):
+    meth = getattr(type(obj), name, None)
+    if meth is not None and str(getattr(meth, "__module__", "") or "").startswith("typhon"):
+        return meth
+    return None
+
+
 def getitem_any(interp, obj, key):
     if isinstance(obj, SArr):
         return obj[key]
+    if not interp.concrete and _typhon_dunder(obj, "__getitem__") is not None:
+        return interp.call_value(_typhon_dunder(obj, "__getitem__"), [obj, key], {}, None)
     if hasattr(obj, "__pyvc_getitem__"):
         return obj.__pyvc_getitem__(interp, key)
     if isinstance(obj, np.ndarray) and deep_sym(key):
@@ -828,6 +837,9 @@ def getitem_any(interp, obj, key):
 def setitem_any(interp, obj, key, val):
     if isinstance(obj, SArr):
         obj[key] = val
+        return
+    if not interp.concrete and _typhon_dunder(obj, "__setitem__") is not None:
+        interp.call_value(_typhon_dunder(obj, "__setitem__"), [obj, key, val], {}, None)
         return
     if hasattr(obj, "__pyvc_setitem__"):
         return obj.__pyvc_setitem__(interp, key, val)
@@ -1964,3 +1976,24 @@ def is_contextmanager_helper(f):
     code = getattr(f, "__code__", None)
     return code is not None and code.co_name == "helper" and code.co_filename.endswith("contextlib.py") \
         and hasattr(f, "__wrapped__")
+
+
+@model(_posixpath.dirname, _os.path.dirname)
+def posix_dirname(interp, p):
+    if isinstance(p, _strsym.SStr):
+        shape = p.concrete_shape("0")
+        i = shape.rfind("/") + 1
+        head = p.slice(0, i)
+        hs = shape[:i]
+        if hs and hs != "/" * len(hs):
+            head = head.slice(0, len(hs.rstrip("/")))
+        return head
+    return _posixpath.dirname(p)
+
+
+@model(_posixpath.basename, _os.path.basename)
+def posix_basename(interp, p):
+    if isinstance(p, _strsym.SStr):
+        shape = p.concrete_shape("0")
+        return p.slice(shape.rfind("/") + 1, None)
+    return _posixpath.basename(p)
